@@ -44,8 +44,12 @@ RULES = {
     "cached_property) over a model, graph, node or value argument - passes run repeatedly on models that were edited in between, and "
     "a cache keyed by object identity hands the analysis of the old contents to the next run, which then reports (or skips) changes "
     "for a model it did not look at",
+    "R11": "a graph input is dropped only when the graph still defines it: where a pass rebuilds `<g>.inputs` from a filtered copy "
+    "(`<g>.inputs.clear()` + `extend(kept)`, slice assignment), the test that leaves an input out is a membership test in that graph's "
+    "initializers (`in <g>.initializers` / a set built from them / `is_initializer()`) - a test of the value's own data (`const_value is "
+    "not None`: analysis hints set it on plain inputs too) removes inputs that nothing else defines, and the nodes that read them dangle",
 }
-FLOORS = {"R1": 18, "R2": 40, "R3": 10, "R4": 4, "R5": 1, "R6": 8, "R7": 5, "R8": 2, "R9": 6, "R10": 1}
+FLOORS = {"R1": 18, "R2": 40, "R3": 10, "R4": 4, "R5": 1, "R6": 8, "R7": 5, "R8": 2, "R9": 6, "R10": 1, "R11": 1}
 EXPLANATION = (
     "For every pass class found under onnx_ir.passes: CFG queries over `call` and every helper it reaches that "
     "writes model state (effect summaries with root tags), relating each write to the flag variables that reach "
@@ -895,6 +899,51 @@ def rule_r9(ctx):
     ctx.require(n >= 6, f"only {n} name assignments with made-up names found in the pass modules")
 
 
+def rule_r11(ctx):
+    n = 0
+    for m in ctx.repo.modules.values():
+        if not m.name.startswith("onnx_ir.passes.common.") or m.name.endswith("_test"):
+            continue
+        for f in m.all_funcs:
+            if isinstance(f.node, ast.Lambda):
+                continue
+            for c in calls_in(f):
+                # <g>.inputs.extend(<kept>) / <g>.inputs[:] = <kept> after the inputs were cleared
+                if not (isinstance(c.func, ast.Attribute) and c.func.attr == "extend" and isinstance(c.func.value, ast.Attribute) and c.func.value.attr == "inputs"
+                        and c.args and isinstance(c.args[0], ast.Name)):
+                    continue
+                g = norm(c.func.value.value)
+                if not any(isinstance(x.func, ast.Attribute) and x.func.attr == "clear" and norm(x.func.value) == f"{g}.inputs" for x in calls_in(f)):
+                    continue
+                kept = c.args[0].id
+                # the loop over <g>.inputs that fills <kept>
+                for lp in (x for x in own_nodes(f.node) if isinstance(x, ast.For) and norm(x.iter) == f"{g}.inputs" and isinstance(x.target, ast.Name)):
+                    appends = [a for a in ast.walk(lp) if isinstance(a, ast.Call) and isinstance(a.func, ast.Attribute) and a.func.attr == "append"
+                               and norm(a.func.value) == kept and a.args and norm(a.args[0]) == lp.target.id]
+                    for a in appends:
+                        tests = []
+                        p_ = getattr(a, "_parent", None)
+                        while p_ is not None and p_ is not lp:
+                            if isinstance(p_, ast.If):
+                                tests.append(p_.test)
+                            p_ = getattr(p_, "_parent", None)
+                        if not tests:
+                            continue
+                        n += 1
+                        # names derived from the graph's initializers
+                        derived = {t.id for d in own_nodes(f.node) if isinstance(d, ast.Assign) and any(isinstance(y, ast.Attribute) and y.attr == "initializers" for y in ast.walk(d.value))
+                                   for t in d.targets if isinstance(t, ast.Name)}
+                        ok = all(any((isinstance(y, ast.Attribute) and y.attr == "initializers") or (isinstance(y, ast.Name) and y.id in derived)
+                                     or (isinstance(y, ast.Call) and isinstance(y.func, ast.Attribute) and y.func.attr == "is_initializer") for y in ast.walk(t)) for t in tests)
+                        ctx.check("R11", f"{f.local}: an input of `{g}` is left out only if it is one of its initializers", ok, f, tests[0],
+                                  f"`{norm(tests[0])[:70]}` decides which inputs of `{g}` are dropped without asking whether the graph's initializers define them: an input "
+                                  "that merely carries data (a `const_value` set as an analysis hint) is removed from the inputs although nothing else defines it - the "
+                                  "nodes that read it dangle and the checker rejects the model",
+                                  how="tests around `<kept>.append(<input>)` in the loop that rebuilds <g>.inputs mention <g>.initializers (or a set built from them) or is_initializer()",
+                                  construct=f"inputs of {g} dropped by a test that does not ask the initializers")
+    ctx.require(n >= 1, "no pass rebuilds graph inputs from a filtered copy (RemoveInitializersFromInputsPass expected)")
+
+
 def rule_sort_snapshots(ctx):
     """Backs the IDIOMS entries of TopologicalSortPass: a flag computed by comparing node sequences before and after `<x>.sort()`
     sees what sort() changes only if the sequences cover every nesting level (sort() reorders subgraphs too)."""
@@ -1010,6 +1059,7 @@ def run(ctx):
     ef.compute()
     passes = pass_classes(ctx)
     ctx.tables["pass_classes"] = [c.key for c in passes]
+    rule_r11(ctx)
     from ..shared import rule_s14
 
     rule_s14(ctx, "R10", lambda name: name.startswith("onnx_ir.passes"), "the pass acts on (and reports about) contents the model no longer has")
